@@ -22,7 +22,10 @@ import Verif.Generated.AcmeRoutes
   * `revoke_only_owner_or_holder` — revocation ⇒ active owner account, or signature verifies under the certificate's key
   * `deactivated_nothing`       — no guarded chain lets a request through that names, or embeds the key of, a non-active account
   * `deactivated_forever`       — over every history: once deactivated, always deactivated
-  * `challenge_authz_binding_refuted` — a challenge response CAN be used with another account's
+  * `attest_authz_confined`     — an accepted device-attest-01 response writes only into an authorization of the
+                                  requester (D15 fixed by 365cae8); `provisioner_confined` — every account, old
+                                  records included, acts only under its recorded provisioner (8fb1ad6)
+  * (historic) a challenge response could be used with another account's
                                   authorization id (D15): `GetChallenge` checks the challenge's owner only
   * `challenge_authz_binding_partial` — what does hold: the *challenge* answered is the requester's
 -/
@@ -155,11 +158,20 @@ theorem extractJWK_ok {w w' : World} {c c' : Ctx} (hacc : c.acc = none)
 def provMatches (a : Account) (rq : Req) : Prop :=
   (a.provId = 0 → a.provName = rq.provName) ∧ (a.provId ≠ 0 → a.provId = rq.provId)
 
+/-- the same as far as the record says anything: records written by old versions may lack the id,
+    or id and name (the legacy branch of `lookupJWK`, commit 8fb1ad6) -/
+def provRecordedMatches (a : Account) (rq : Req) : Prop :=
+  (a.provId ≠ 0 → a.provId = rq.provId) ∧ (a.provId = 0 → a.provName ≠ 0 → a.provName = rq.provName)
+
+theorem provMatches.recorded {a : Account} {rq : Req} (h : provMatches a rq) : provRecordedMatches a rq :=
+  ⟨h.2, fun h0 _ => h.1 h0⟩
+
 /-- the key-id route: what `lookupJWK` has established -/
 structure ByKid (rq : Req) (w : World) (j : Jws) (c' : Ctx) : Prop where
   named : ∃ a, j.kid ≠ 0 ∧ accById w j.kidBase = some a ∧ a.status = .valid ∧
     c'.acc = some a ∧ c'.jwk = some (a.key, a.keyAlg) ∧
-    ((a.loc ≠ 0 ∧ j.kid = a.loc ∧ provMatches a rq) ∨ (a.loc = 0 ∧ j.kidHasPrefix = true))
+    ((a.loc ≠ 0 ∧ j.kid = a.loc ∧ provMatches a rq) ∨
+     (a.loc = 0 ∧ j.kidHasPrefix = true ∧ provRecordedMatches a rq))
 
 theorem lookupJWK_ok {rq : Req} {w w' : World} {c c' : Ctx}
     (h : lookupJWK rq w c = (w', .ok c')) :
@@ -192,10 +204,17 @@ theorem lookupJWK_ok {rq : Req} {w w' : World} {c c' : Ctx}
   · rename_i hloc
     split at h; · simp at h
     rename_i hpre
+    split at h; · simp at h
+    rename_i hprov
     simp at h
     obtain ⟨hw, hc⟩ := h
     subst hw; subst hc
-    exact ⟨rfl, rfl, rfl, rfl, j, hj, ⟨a, hkid, ha, by simpa using hst, rfl, rfl, .inr ⟨by simpa using hloc, by simpa using hpre⟩⟩⟩
+    refine ⟨rfl, rfl, rfl, rfl, j, hj, ⟨a, hkid, ha, by simpa using hst, rfl, rfl,
+      .inr ⟨by simpa using hloc, by simpa using hpre, ?_⟩⟩⟩
+    simp only [Bool.or_eq_true, Bool.and_eq_true, decide_eq_true_eq, not_or, not_and] at hprov
+    constructor
+    · intro h0; have := hprov.1 h0; simpa using this
+    · intro h0 h1; have := hprov.2 ⟨h0, h1⟩; simpa using this
 
 theorem extractOrLookupJWK_ok {rq : Req} {w w' : World} {c c' : Ctx} (hacc : c.acc = none)
     (h : extractOrLookupJWK rq w c = (w', .ok c')) :
@@ -480,7 +499,7 @@ def exJws : Jws :=
 def exReq : Req :=
   { provId := 31, provName := 32, provKnown := true, url := 40, ct := 0, certPath := false, parsed := true,
     jws := exJws, fresh := 8, target := 50, target2 := 0, payloadOk := true, wantDeactivate := false,
-    onlyExisting := false, certKey := 0, certSame := true }
+    onlyExisting := false, certKey := 0, certSame := true, attest := false, attPayload := 0 }
 def exWorld : World :=
   { nonces := [7], accounts := [exAcct, { exAcct with id := 2, key := 12, loc := 22 }],
     orders := [⟨50, 1, 31⟩, ⟨51, 2, 31⟩], authzs := [⟨60, 1, 0⟩, ⟨61, 2, 0⟩],
@@ -593,6 +612,8 @@ def OwnedBy (w : World) (a prov : Nat) : Res → Prop
   | .order id => ∃ o, findOwned w.orders id = some o ∧ o.acct = a ∧ o.prov = prov
   | .authz id => ∃ z, findOwned w.authzs id = some z ∧ z.acct = a
   | .challenge id _ => ∃ ch, findOwned w.challenges id = some ch ∧ ch.acct = a
+  | .attested id az => (∃ ch, findOwned w.challenges id = some ch ∧ ch.acct = a) ∧
+      (∃ z, findOwned w.authzs az = some z ∧ z.acct = a)
   | .cert id => ∃ x, findCert w id = some x ∧ x.acct = a
   | .ordersOf acct => acct = a
   | .account id => id = a
@@ -651,10 +672,14 @@ theorem confined {h : Handler} {rq : Req} {w w' : World} {c : Ctx} {res : Res}
   | getChallenge =>
     simp only [runHandler] at hr
     repeat' (split at hr <;> try (simp at hr))
-    obtain ⟨_, rfl⟩ := hr
-    have ho := ‹findOwned w.challenges rq.target2 = some _›
-    refine ⟨_, ‹c.acc = some _›, _, by rw [find?_id ho]; exact ho, ?_⟩
-    simp_all
+    all_goals (
+      obtain ⟨_, rfl⟩ := hr
+      have ho := ‹findOwned w.challenges rq.target2 = some _›
+      first
+        | (refine ⟨_, ‹c.acc = some _›, _, by rw [find?_id ho]; exact ho, ?_⟩
+           simp_all)
+        | (have hz := ‹findOwned w.authzs rq.target = some _›
+           refine ⟨_, ‹c.acc = some _›, ⟨_, by rw [find?_id ho]; exact ho, ?_⟩, ⟨_, by rw [find?_id hz]; exact hz, ?_⟩⟩ <;> simp_all))
   | getCertificate =>
     simp only [runHandler] at hr
     repeat' (split at hr <;> try (simp at hr))
@@ -687,7 +712,8 @@ theorem confined_served {rs : List Route} (hg : tableGuarded rs = true) {r : Rou
     {rq : Req} {w w' : World} {res : Res}
     (hs : serve r.chain h rq w = (w', .ok res)) :
     ∃ a, accById w rq.jws.kidBase = some a ∧ a.status = .valid ∧ verifies rq.jws a.key = true ∧
-      ((a.loc ≠ 0 ∧ rq.jws.kid = a.loc ∧ provMatches a rq) ∨ (a.loc = 0 ∧ rq.jws.kidHasPrefix = true)) ∧
+      ((a.loc ≠ 0 ∧ rq.jws.kid = a.loc ∧ provMatches a rq) ∨
+       (a.loc = 0 ∧ rq.jws.kidHasPrefix = true ∧ provRecordedMatches a rq)) ∧
       OwnedBy w a.id rq.provId res := by
   obtain ⟨pag, w1, c, hon, hrun⟩ := served_only_if hg hr hh hs
   rw [hk] at hon
@@ -898,38 +924,125 @@ theorem deactivated_forever (id : Nat) (hist : List (List Mw × Handler × Req))
       | error e => exact hi1
       | ok c => exact runHandler_inactive _ _ _ _ _ hi1
 
-/-! ## a challenge response and the authorization it is used with (D15) -/
+/-! ## a challenge response and the authorization it writes into (D15, fixed by 365cae8) -/
 
-/-- the clause one would want: a served challenge response names an authorization of the requester -/
-def ChallengeAuthzBinding : Prop :=
-  ∀ (rq : Req) (w w' : World) (c : Ctx) (a : Account) (ch az : Nat),
-    c.acc = some a → runHandler .getChallenge rq w c = (w', .ok (.challenge ch az)) →
-      ∃ z, findOwned w.authzs az = some z ∧ z.acct = a.id
+/-- **attest_authz_confined.** A device-attest-01 response that is accepted — the only challenge
+    response that writes into an authorization (the attested key fingerprint) — writes into the
+    authorization named by the URL only if that authorization belongs to the requesting account, and
+    the challenge answered is the requester's too. (Before commit 365cae8 the authorization was
+    loaded by the id in the URL and written without any ownership test.) -/
+theorem attest_authz_confined {rq : Req} {w w' : World} {c : Ctx} {ch az : Nat}
+    (h : runHandler .getChallenge rq w c = (w', .ok (.attested ch az))) :
+    ∃ a x z, c.acc = some a ∧ findOwned w.challenges ch = some x ∧ x.acct = a.id ∧
+      az = rq.target ∧ findOwned w.authzs az = some z ∧ z.acct = a.id := by
+  obtain ⟨a, ha, ⟨x, hx, hxo⟩, ⟨z, hz, hzo⟩⟩ := confined (by decide) (by decide) h
+  refine ⟨a, x, z, ha, hx, hxo, ?_, hz, hzo⟩
+  simp only [runHandler] at h
+  repeat' (split at h <;> try (simp at h))
+  have hid := find?_id ‹findOwned w.authzs rq.target = some _›
+  rw [← h.2.2, hid]
 
-/-- **challenge_authz_binding_refuted.** As coded the clause is false: `GetChallenge` takes the
-    authorization id from the URL, the store looks the challenge up by its own id only, and the
-    ownership test is on the challenge alone — account 1 answers its challenge 70 "under"
-    authorization 61 of account 2. (For device-attest-01 the validation then writes the attested
-    key fingerprint into that authorization: reproduced on the real handlers by stage `d15`.) -/
-theorem challenge_authz_binding_refuted : ¬ ChallengeAuthzBinding := by
-  intro h
-  have := h { exReq with target := 61, target2 := 70 } exWorld exWorld
-    { prov := true, jws := some exJws, acc := some exAcct, jwk := some (11, 0), payload := some false }
-    exAcct 70 61 rfl (by decide)
-  revert this
-  decide
-
-/-- **challenge_authz_binding_partial.** What does hold: the challenge answered is the requester's,
-    and the authorization id is the one in the URL. -/
-theorem challenge_authz_binding_partial {rq : Req} {w w' : World} {c : Ctx} {ch az : Nat}
+/-- a response that does not write (http-01, dns-01, tls-alpn-01, or no attestation) answers the
+    requester's own challenge; the authorization id of the URL is only echoed in the `Link: up` header -/
+theorem challenge_answer_confined {rq : Req} {w w' : World} {c : Ctx} {ch az : Nat}
     (h : runHandler .getChallenge rq w c = (w', .ok (.challenge ch az))) :
     az = rq.target ∧ ch = rq.target2 ∧ ∃ a x, c.acc = some a ∧ findOwned w.challenges ch = some x ∧ x.acct = a.id := by
   obtain ⟨a, ha, x, hx, hown⟩ := confined (by decide) (by decide) h
   simp only [runHandler] at h
   repeat' (split at h <;> try (simp at h))
-  have hid := find?_id ‹findOwned w.challenges rq.target2 = some _›
-  refine ⟨h.2.2.symm, ?_, a, x, ha, hx, hown⟩
-  rw [← h.2.1, hid]
+  all_goals (
+    have hid := find?_id ‹findOwned w.challenges rq.target2 = some _›
+    refine ⟨h.2.2.symm, ?_, a, x, ha, hx, hown⟩
+    rw [← h.2.1, hid])
+
+-- account 1 attests its challenge 70 under its own authorization 60: accepted, written there
+example : (runHandler .getChallenge { exReq with target := 60, target2 := 70, attest := true } exWorld
+    { prov := true, jws := some exJws, acc := some exAcct, jwk := some (11, 0), payload := some false }).2
+    = .ok (.attested 70 60) := by decide
+-- … under authorization 61 of account 2 (the D15 request): refused since 365cae8
+example : (runHandler .getChallenge { exReq with target := 61, target2 := 70, attest := true } exWorld
+    { prov := true, jws := some exJws, acc := some exAcct, jwk := some (11, 0), payload := some false }).2
+    = .error .unauthorized := by decide
+
+/-! ## an account acts only through the provisioner it was created under (LEGACY-PROV, fixed by 8fb1ad6) -/
+
+/-- **provisioner_confined.** Every request honoured through the kid selector — whatever kind of
+    record the account has — names an account whose recorded provisioner is the provisioner of the URL:
+    the recorded id when there is one, else the recorded name when there is one (a record that names
+    neither cannot be confined by anything). For accounts with a stored location the kid is that
+    location and the name comparison is unconditional (`provisioner_confined_located`). -/
+theorem provisioner_confined {pag : Bool} {rq : Req} {w w' : World} {c : Ctx}
+    (h : runChain (guardedChain .kid pag) rq w Ctx.empty = (w', .ok c))
+    {a : Account} (ha : c.acc = some a) : provRecordedMatches a rq := by
+  have hon := request_honoured_only_if h
+  obtain ⟨a', _, _, _, hacc, _, hcase⟩ := hon.signer.named
+  rw [hacc] at ha; cases ha
+  rcases hcase with ⟨_, _, hp⟩ | ⟨_, _, hp⟩
+  · exact hp.recorded
+  · exact hp
+
+theorem provisioner_confined_located {pag : Bool} {rq : Req} {w w' : World} {c : Ctx}
+    (h : runChain (guardedChain .kid pag) rq w Ctx.empty = (w', .ok c))
+    {a : Account} (ha : c.acc = some a) (hloc : a.loc ≠ 0) :
+    rq.jws.kid = a.loc ∧ provMatches a rq := by
+  have hon := request_honoured_only_if h
+  obtain ⟨a', _, _, _, hacc, _, hcase⟩ := hon.signer.named
+  rw [hacc] at ha; cases ha
+  rcases hcase with ⟨_, hk, hp⟩ | ⟨h0, _⟩
+  · exact ⟨hk, hp⟩
+  · exact absurd h0 hloc
+
+/-- an account as old versions stored it: no location; created under provisioner 31 -/
+def exLegacy : Account := { exAcct with loc := 0 }
+
+-- under its own provisioner the old record is served, under provisioner 99 (the LEGACY-PROV request) refused
+example : (serve byKid .newOrder { exReq with jws := { exJws with kid := 77 } }
+    { exWorld with accounts := [exLegacy] }).2 = .ok (.newOrder 1 31) := by decide
+example : (serve byKid .newOrder { exReq with provId := 99, provName := 98, jws := { exJws with kid := 77 } }
+    { exWorld with accounts := [exLegacy] }).2 = .error .unauthorized := by decide
+
+/-! ## account keys never change (key-change is not implemented) -/
+
+/-- **key_change_refused.** The key-change handler answers notImplemented and touches nothing. -/
+theorem key_change_refused (rq : Req) (w : World) (c : Ctx) :
+    runHandler .keyChange rq w c = (w, .error .notImplemented) := by
+  simp [runHandler]
+
+def keyView (w : World) : List (Nat × Nat × Nat) := w.accounts.map fun a => (a.id, a.key, a.keyAlg)
+
+theorem runHandler_keys (h : Handler) (rq : Req) (w : World) (c : Ctx) :
+    keyView (runHandler h rq w c).1 = keyView w := by
+  have hs : ∀ id st, keyView (setStatus w id st) = keyView w := by
+    intro id st
+    simp only [keyView, setStatus, List.map_map]
+    apply List.map_congr_left
+    intro a _
+    simp only [Function.comp]
+    split <;> rfl
+  have hr : ∀ id, keyView (setRevoked w id) = keyView w := fun id => rfl
+  cases h <;> simp only [runHandler] <;> (repeat' split) <;> first | rfl | exact hs _ _ | exact hr _
+
+/-- **account_keys_forever.** Over every history of requests through any chains and handlers, the
+    key (and its algorithm) recorded for every account is the one it was created with: there is no way
+    to replace the key a request is verified against. -/
+theorem account_keys_forever (hist : List (List Mw × Handler × Req)) (w : World) :
+    keyView (hist.foldl (fun w x => (serve x.1 x.2.1 x.2.2 w).1) w) = keyView w := by
+  induction hist generalizing w with
+  | nil => rfl
+  | cons x xs ih =>
+    simp only [List.foldl_cons]
+    rw [ih]
+    unfold serve
+    have hacc := runChain_accounts x.1 x.2.2 w Ctx.empty
+    cases hc : runChain x.1 x.2.2 w Ctx.empty with
+    | mk w1 r =>
+      rw [hc] at hacc
+      have hk : keyView w1 = keyView w := by
+        have : w1.accounts = w.accounts := hacc
+        simp [keyView, this]
+      cases r with
+      | error e => exact hk
+      | ok c => simp only []; rw [runHandler_keys]; exact hk
 
 /-! ## `validateJWS` step by step: each nonce once under every interleaving of k requests -/
 
